@@ -125,7 +125,7 @@ Qed.
 Definition quiet_op (o : op) : bool :=
   match o with
   | OExAdd _ _ _ | OExAccept _ _ _ | OExTimeout _ _ _ | OExDrop _ _ _ _ _ | OSweep _ | OSetMode _ _
-  | ORxExch _ _ => false
+  | ORxExch _ _ | OExAcked _ _ _ => false
   | OUpdate _ m _ => negb (mode_eqb m MPlain)
   | _ => true
   end.
@@ -219,11 +219,18 @@ Proof.
     + left; auto.
 Qed.
 
+(** operations covered by the frame theorem (all that the node layer uses) *)
+Definition lsafe (o : op) : bool :=
+  match o with
+  | OSetMode _ _ | ORxExch _ _ | OExAcked _ _ _ => false
+  | OUpdate _ m _ => negb (mode_eqb m MPlain)
+  | _ => true
+  end.
+
 (** ** the frame theorem: where an in-use slot of an unsecured session comes from *)
 Theorem step_lslot : forall cap mx s o sid xi v,
   NoDup (ids (tb s)) ->
-  (forall id m, o <> OSetMode id m) -> (forall id now, o <> OUpdate id MPlain now) ->
-  (forall id now, o <> ORxExch id now) ->
+  lsafe o = true ->
   lslot (t_sess (tb (fst (step cap mx s o)))) sid xi v ->
   lslot (t_sess (tb s)) sid xi v \/
   (exists p now, o = OExAdd sid p now /\ snd (step cap mx s o) = RIdx xi /\
@@ -232,13 +239,12 @@ Theorem step_lslot : forall cap mx s o sid xi v,
   (exists now, o = OExTimeout sid xi now /\ v = XDropAck) \/
   (exists r a now, o = OExDrop sid xi r a now /\ (v = XDropAck \/ v = XDropRetr)).
 Proof.
-  intros cap mx s o sid xi v Hnd Hns Hnu Hnr Hl.
+  intros cap mx s o sid xi v Hnd Hsafe Hl.
   destruct (quiet_op o) eqn:Hq.
   { left. eapply vsub_lslot; [apply step_vsub; exact Hq|exact Hl]. }
   destruct o; try discriminate; cbn [step] in Hl |- *.
   - (* OUpdate MPlain: excluded *)
-    cbn in Hq. destruct m; try discriminate. exfalso. eapply Hnu; reflexivity.
-  - exfalso. eapply Hns; reflexivity.
+    cbn in Hq, Hsafe. destruct m; discriminate.
   - (* OExAdd *)
     unfold ex_add in *.
     destruct (t_lookup id (tb s)) as [x|] eqn:Hlk; [|left; exact Hl].
@@ -300,7 +306,6 @@ Proof.
     cbn in Hl. destruct (get_upd_decomp _ _ _ _ Hg) as [x0 [rest [Hp [Hx0 [Hin0 [_ [_ Hu]]]]]]].
     destruct (Hu (xset xi0 None)) as [Hp' _].
     destruct (xset_lslot _ _ _ _ _ _ _ _ _ _ Hp Hp' Hl) as [Ho|[Hs [Hx Hv]]]; auto. discriminate.
-  - exfalso. eapply Hnr; reflexivity.
 Qed.
 
 (** ** what a slot operation leaves in its slot *)
